@@ -35,6 +35,8 @@ def run(rep):
     import c05
     rep.guard(c05.e12, rep, w)    # the line of an instruction is a function of (chunk, offset): the chunk keeps no cursor or memo that an earlier report moves
     rep.guard(l16, rep, w)
+    rep.guard(l17, rep, w)
+    rep.guard(l18, rep, w)
 
 
 def first_getter_from(f, b, limit=6):
@@ -1031,3 +1033,63 @@ def _line_preserving_view(w, f, org, block, is_source, depth=0):
             return False
         return arg_ok(t['args'][0])
     return False
+
+
+def l17(rep, w, prop='C17'):
+    """every entry of a trace carries the line its own frame is stopped at: in the loop of runtime_error that walks the frames, each entry added
+    to the report (add_message) comes after the line look-up for the frame of this iteration (code_offset of that frame's ip) on every path
+    through the loop body - a prefix remembered from the previous entry ("same function, same text") gives all frames of a recursion the line
+    of the innermost one."""
+    r = rep.rule('L17', 'each trace entry is formatted from the line look-up of its own frame, on every path through the loop', floor=1)
+    f = w.require_fn('yarel::vm::Vm::runtime_error', prop)
+    dom = f.dominators()
+    adds = [bi for bi, t in f.calls() if (callee_name(t) or '').endswith('Error::add_message')]
+    looks = {bi for bi, t in f.calls() if (callee_name(t) or '').endswith('::code_offset')}
+    n = 0
+    for ab in adds:
+        heads = [bi for bi, t in f.calls() if strip_generics(callee_name(t) or '').rsplit('::', 1)[-1] in ('next', 'next_back') and bi in dom.get(ab, ()) and bi in f.reachable_blocks(ab)]
+        if not heads:
+            continue        # the message of the error itself, outside the loop over frames
+        n += 1
+        head = max(heads, key=lambda b: len(dom.get(b, ())))
+        skipped = ab in f.reachable_blocks(head, avoid=looks)
+        r.check(bool(looks) and not skipped, 'runtime_error: an entry is added only after the line look-up of this frame',
+                'runtime_error adds a trace entry on a path of the loop that has not looked up the line of the current frame: the entry shows a line remembered from another frame',
+                f.loc(f.blocks[ab]['t'].get('sp')))
+    if n == 0:
+        raise Broken(prop, 'anchor', 'runtime_error: no trace entry added inside a loop over the frames')
+
+
+def l18(rep, w, prop='C17'):
+    """... and the report reaches the user whole: the command line prints an error with Display for Error - the one place that writes every line
+    of the report, in order (L15 keeps them all in) - wherever it receives one from the interpreter. It never takes the report apart
+    (Error::messages) to print lines selectively: a filter that drops "repeated" lines drops frames of a recursion from the trace."""
+    r = rep.rule('L18', 'the command line prints an error report whole, through Display for Error', floor=2)
+    cli = w.crates.get('yarel_cli')
+    if cli is None:
+        raise Broken(prop, 'anchor', 'crate yarel_cli not analysed')
+    n = 0
+    for f in sorted(cli.fns.values(), key=lambda x: x.path):
+        apart = [bi for bi, t in f.calls() if (callee_name(t) or '').endswith('Error::messages')]
+        r.check(not apart, '%s does not take the report apart' % f.path, '%s reads the lines of an error report one by one (Error::messages) instead of printing the report: whatever it skips '
+                'is missing from the trace the user sees' % f.path, f.loc(f.blocks[apart[0]]['t'].get('sp')) if apart else f.loc()) if apart or any((callee_name(t) or '').startswith('yarel::vm::interpret') for _, t in f.calls()) else None
+        runs = [(bi, t) for bi, t in f.calls() if (callee_name(t) or '').startswith('yarel::vm::interpret')]
+        if not runs:
+            continue
+        n += 1
+        def shows(g, depth=0):
+            for _, t2 in g.calls():
+                nm = callee_name(t2) or ''
+                if 'Argument' in nm and nm.endswith('new_display'):
+                    tys = ' '.join(g.crate.tstr(a) for a in (t2['f'].get('ra') or t2['f'].get('a') or []))
+                    if tys.endswith('Error') or 'error::Error' in tys:
+                        return True
+                h = cli.fns.get(nm)
+                if h is not None and depth < 2 and h.path != g.path and shows(h, depth + 1):
+                    return True     # a helper of the command line that prints the report it is given
+            return False
+        shown = shows(f)
+        r.check(shown, '%s prints the Error it receives with Display' % f.path, '%s runs a program and does not print the error it gets back through Display for Error '
+                '(the one place that writes every line of the report)' % f.path, f.loc())
+    if n < 2:
+        raise Broken(prop, 'floor', 'L18: only %d functions of the command line run programs' % n)
